@@ -46,6 +46,7 @@ type half struct {
 	dlTimer  *time.Timer
 
 	gate func(b []byte) // called (outside the lock) before a write is appended; may block
+	werr error          // when set, every Write of this direction fails with it (reads are unaffected)
 }
 
 func newHalf() *half {
@@ -180,6 +181,15 @@ func (p *Pair) SetGate(d Dir, g func(b []byte)) {
 	h.mu.Unlock()
 }
 
+// FailWrites makes every further Write of direction d fail with err while the
+// connection otherwise stays up (a half-broken link: e.g. EPIPE on send).
+func (p *Pair) FailWrites(d Dir, err error) {
+	h := p.half(d)
+	h.mu.Lock()
+	h.werr = err
+	h.mu.Unlock()
+}
+
 // Cut tears down both directions at once: pending bytes are dropped, reads
 // return io.EOF, writes return io.ErrClosedPipe.
 func (p *Pair) Cut() {
@@ -297,6 +307,9 @@ func (c *Conn) Write(p []byte) (int, error) {
 	defer h.mu.Unlock()
 	if h.wclosed || h.broken {
 		return 0, io.ErrClosedPipe
+	}
+	if h.werr != nil {
+		return 0, h.werr
 	}
 	if h.rclosed {
 		return 0, errors.New("memconn: write: broken pipe")
